@@ -69,7 +69,7 @@ def seeds():
     bad = 0
     for name in sorted(os.listdir(sd)):
         meta = json.load(open(os.path.join(sd, name, "meta.json")))
-        p = subprocess.run([os.path.join(z.VERIF, "lib", "run_seed.sh"), name, meta["property"], "quick"], stdout=subprocess.PIPE, stderr=subprocess.STDOUT)
+        p = subprocess.run([os.path.join(z.VERIF, "lib", "run_seed.sh"), name, meta.get("caught_by", meta["property"]), "quick"], stdout=subprocess.PIPE, stderr=subprocess.STDOUT)
         line = p.stdout.decode().splitlines()[0] if p.stdout else ""
         print(("caught " if p.returncode == 1 else "MISSED ") + line)
         bad += p.returncode != 1
